@@ -70,9 +70,51 @@ def case_strategy():
         return {"classes": classes}
 
     @st.composite
+    def _diamond_case(draw):
+        """a root, two subclasses of it (one or both extending, the marker anywhere among decorated definitions) and
+        classes that list both of them - defining nothing, or extending: what the first two did with their markers
+        must not reach the classes below them"""
+        anns = draw(st.permutations(ANNS))
+        k = [0]
+
+        def leaf(a, prio=0):
+            k[0] += 1
+            return {"id": k[0] - 1, "kind": "leaf", "prio": prio, "ann": a}
+
+        def cls(i, bases, defs, ext):
+            return {"id": i, "mc": True, "bases": bases, "defs": defs, "ext": ext and bool(defs), "marked": False,
+                    "style": "OvldBase", "sparse_deco": draw(st.booleans()), "stack_mark": draw(st.booleans()),
+                    "mark_at": draw(st.integers(0, max(0, len(defs) - 1))) if ext else 0}
+
+        classes = [cls(0, [], [leaf(anns[0]), leaf(anns[1])], False)]
+        for i in (1, 2):
+            n = draw(st.integers(2, 3))
+            prios = draw(st.lists(st.sampled_from([0, 0, 1, -1]), min_size=n, max_size=n))
+            ext = draw(st.integers(0, 3)) > 0
+            if ext:
+                prios[0] = 0
+            defs = [leaf(draw(st.sampled_from(anns[2:6])), prios[j]) for j in range(n)]
+            seen, out = set(), []
+            for m in defs:
+                key = (R.canon(m["ann"]), m["prio"])
+                if key not in seen:
+                    seen.add(key)
+                    out.append(m)
+            if len(out) == 1 and not ext:
+                out = []
+            classes.append(cls(i, [0], out, ext))
+        order = draw(st.sampled_from([[1, 2], [2, 1]]))
+        classes.append(cls(3, order, [], False))
+        if draw(st.booleans()):
+            classes.append(cls(4, order[::-1], [leaf(anns[6]), leaf(anns[7])], True))
+        return {"classes": classes}
+
+    @st.composite
     def _case(draw):
         if draw(st.integers(0, 5)) == 0:
             return draw(_mixin_case())
+        if draw(st.integers(0, 5)) == 0:
+            return draw(_diamond_case())
         n = draw(st.integers(2, 6))
         classes = []
         mid = 0
@@ -128,6 +170,7 @@ def case_strategy():
             classes.append({"id": i, "mc": mc, "bases": bases, "defs": defs, "ext": ext and bool(defs), "marked": marked,
                             "style": draw(st.sampled_from(["OvldBase", "metaclass"])),
                             "sparse_deco": draw(st.booleans()),
+                            "stack_mark": draw(st.booleans()),
                             # which of the same-named definitions carries the marker (any of them may)
                             "mark_at": draw(st.integers(0, len(defs) - 1)) if (ext and defs and draw(st.integers(0, 2)) == 0) else 0})
         return {"classes": classes}
@@ -157,8 +200,14 @@ def render_class(c, classes):
     lines.append(head)
     lines.append(f"    tag = {c['id']}")
     decorated = any(m.get("prio") for m in c["defs"])
+    stack = c["ext"] and decorated and c.get("stack_mark") and 0 < c.get("mark_at", 0) < len(c["defs"])
     for j, m in enumerate(c["defs"]):
-        if (c["ext"] and j == (c.get("mark_at", 0) if not decorated else 0)) or (c.get("marked") and not c["ext"] and j == 0):
+        if stack and j == c["mark_at"]:
+            # the spelling of tests/test_ovld.py::test_metaclass_dispatch_2, on a later definition of the name
+            lines.append("    @extend_super")
+            lines.append(f"    @ovld(priority={m.get('prio', 0)})")
+        elif not stack and ((c["ext"] and j == (c.get("mark_at", 0) if not decorated else 0))
+                            or (c.get("marked") and not c["ext"] and j == 0)):
             lines.append("    @extend_super")
         elif m.get("also_marked") and not decorated:
             lines.append("    @extend_super")
@@ -184,6 +233,28 @@ def overlay(lists):
         for m in lst:
             out[M.sig_key(model_method(m))] = m
     return list(out.values())
+
+
+def c3(cid, by_id, memo):
+    """C3 linearisation over class ids (Python's MRO)"""
+    if cid in memo:
+        return memo[cid]
+    bases = by_id[cid]["bases"]
+    seqs = [list(c3(b, by_id, memo)) for b in bases] + [list(bases)]
+    out = [cid]
+    while any(seqs):
+        for q in seqs:
+            if q and not any(q[0] in r[1:] for r in seqs):
+                head = q[0]
+                break
+        else:
+            raise ValueError("no consistent MRO")
+        out.append(head)
+        for q in seqs:
+            if q and q[0] == head:
+                del q[0]
+    memo[cid] = out
+    return out
 
 
 def effective(classes):
@@ -219,8 +290,10 @@ def effective(classes):
             KIND[cid] = "ovld"
             MERGED.add(cid)
         elif not c["defs"]:
-            eff[cid] = eff[with_f[0]] if with_f else None
-            KIND[cid] = KIND[with_f[0]] if with_f else None
+            # nothing defined, nothing merged: plain attribute lookup through the MRO
+            own = [k for k in c3(cid, by_id, {})[1:] if by_id[k]["defs"] or k in MERGED]
+            eff[cid] = eff[own[0]] if own else None
+            KIND[cid] = KIND[own[0]] if own else None
         elif c["ext"]:
             eff[cid] = overlay([eff[b] for b in with_f] + [c["defs"]])
             KIND[cid] = "ovld"
@@ -251,8 +324,8 @@ def unsupported(classes):
         with_f = [b for b in c["bases"] if eff[b] is not None]
         ovl = [b for b in with_f if kind[b] in ("ovld", "flagged")]
         merged = len(ovl) >= 2 and any(kind[b] == "flagged" for b in ovl[1:])
-        if len(with_f) >= 2 and not c["ext"] and not merged:
-            bad.add(c["id"])  # several bases carrying overloads, nothing asks for a merge
+        if len(with_f) >= 2 and not c["ext"] and not merged and c["defs"]:
+            bad.add(c["id"])  # several bases carrying overloads, own definitions, nothing asks for a merge
         if merged and c["defs"] and c["ext"]:
             bad.add(c["id"])  # a pre-merged attribute AND an own @extend_super definition: not documented
         if (c["ext"] or merged) and len(with_f) >= 2:
